@@ -53,6 +53,14 @@ func unsetField(subject, key, sep string) string {
 	}
 
 	loc := re.FindStringIndex(subject)
+	if len(loc) > 0 && !strings.HasSuffix(subject[:loc[1]], sep) {
+		// The match may stop at whitespace in front of the separator ("a=1, b=2 , c=3"):
+		// take the blanks and the separator too, otherwise the following fields are dropped
+		rest := strings.TrimLeft(subject[loc[1]:], " \t")
+		if strings.HasPrefix(rest, sep) {
+			loc[1] = len(subject) - len(rest) + len(sep)
+		}
+	}
 	switch {
 	case len(loc) == 0:
 		return subject
